@@ -129,19 +129,23 @@ partial def parseElems : Nat → List String → Option (List (Lbl × Value) × 
   | _, _ => none
 end
 
-partial def parseAll (r : List String) : Option (List WItem) :=
+def lisClass' : Bytes := [76, 105, 115, 116, 101, 110, 101, 114]
+
+/-- the top-level calls of a line, each with the schema the reading host uses for it: a `vl` group is read
+    count-directed (`.vars`), a real Listener record flag-directed (`.lobj`), everything else as `schemaW` says -/
+partial def parseAll (r : List String) : Option (List (List WItem × List WSch)) :=
   match r with
   | [] => some []
   | "v" :: self :: r => do
     let (v, r1) ← parseValue r
     let is ← parseAll r1
-    some (.value (← self.toNat?) v :: is)
+    some (([.value (← self.toNat?) v], schemaW [.value (← self.toNat?) v]) :: is)
   | "nv" :: self :: key :: r => do
     -- a named variable (`ScriptVariable::Archive`): `<self> <name-hex | ->`, then the value
     let (v, r1) ← parseValue r
     let is ← parseAll r1
     let k ← if key = "-" then some none else (bytes? key).map some
-    some (.named (← self.toNat?) k v :: is)
+    some (([.named (← self.toNat?) k v], schemaW [.named (← self.toNat?) k v]) :: is)
   | "vl" :: tl :: th :: tli :: n :: r => do
     -- `ScriptVariableList::Archive` = `con::set<const_str, ScriptVariable>::Archive`: the header numbers, then
     -- `ScriptVariable::Archive` of every entry in the order of the writer's walk (`perm` over the insertion order)
@@ -160,12 +164,17 @@ partial def parseAll (r : List String) : Option (List WItem) :=
     if perm.any (· ≥ n) then none else
     let walk := perm.filterMap fun i => es[i]?
     let is ← parseAll r1
-    some ([.item (.prim .u32 (← tl.toNat?)), .item (.prim .u32 (← th.toNat?)), .item (.prim .u32 n),
-           .item (.prim .u16 (← tli.toNat?))] ++ walk ++ is)
+    let specs := walk.filterMap fun w => match w with | .named s _ v => some (s, supplyOf v) | _ => none
+    some (([.item (.prim .u32 (← tl.toNat?)), .item (.prim .u32 (← th.toNat?)), .item (.prim .u32 n),
+            .item (.prim .u16 (← tli.toNat?))] ++ walk, [.vars specs]) :: is)
   | r => do
     let (i, r1) ← parseItem r
     let is ← parseAll r1
-    some (.item i :: is)
+    match i with
+    | .object m o cls [.prim .u8 _] =>
+      if cls = lisClass' then some (([.item i], [.lobj m o cls]) :: is)
+      else some (([.item i], schemaW [.item i]) :: is)
+    | _ => some (([.item i], schemaW [.item i]) :: is)
 
 mutual
 partial def showItem : Item → String
@@ -302,6 +311,18 @@ structure St where
   sch : List WSch := []
   bytes : Bytes := []
   have_ : Bool := false
+  flags : List Nat := []
+
+/-- positions of the flag bytes of the Listener records that are read flag-directed -/
+def flagBytes (info : Info) (chunks : List (List WItem × List WSch)) : List Nat :=
+  let hdr := (encHeader info 0).length
+  let rec go (t : List Lbl) (pos : Nat) : List (List WItem × List WSch) → List Nat
+    | [] => []
+    | (ws, sch) :: r =>
+      let e := expand t ws
+      let len := (encItems t e.2).2.length
+      (match sch with | [.lobj _ _ _] => [pos + len - 1] | _ => []) ++ go (encItems t e.2).1 (pos + len) r
+  go [] hdr chunks
 
 def cfg : Cfg := Cfg.current
 
@@ -317,11 +338,12 @@ def step (st : St) (t : List String) : St × String :=
     | none => (st, "bad-op")
   | "arc" :: v :: h :: n :: items =>
     match v.toNat?, bytes? h, bytes? n, parseAll items with
-    | some v, some h, some n, some w =>
+    | some v, some h, some n, some chunks =>
+      let w := chunks.flatMap (·.1)
       let info : Info := { header := h, name := n, version := v }
       let calls := (expand [] w).2
       let bytes := encode info calls
-      let st' := { st with info := info, w := w, calls := calls, sch := schemaW w, bytes := bytes, have_ := true }
+      let st' := { st with info := info, w := w, calls := calls, sch := chunks.flatMap (·.2), flags := flagBytes info chunks, bytes := bytes, have_ := true }
       (st', toHex bytes ++ " | " ++ showOutcome (dec st' bytes))
     | _, _, _, _ => (st, "bad-op")
   | ["rsame"] =>
@@ -330,7 +352,8 @@ def step (st : St) (t : List String) : St × String :=
     (st, showOutcome (decodeWD cfg st.classes st.info st.sch (constTextsW st.w) st.bytes))
   | ["layout"] =>
     if !st.have_ then (st, "bad-op") else
-    (st, rle 0 ((layout st.info st.calls).map pcName))
+    -- the flag byte of a real Listener record the model follows (`.lobj`) is shown as `flag`
+    (st, rle 0 (((layout st.info st.calls).map pcName).zipIdx.map fun (c, i) => if st.flags.contains i then "flag" else c))
   | ["t", k] =>
     match k.toNat? with
     | some k => if !st.have_ || k > st.bytes.length then (st, "bad-op") else (st, showOutcome (dec st (st.bytes.take k)))
